@@ -75,8 +75,13 @@ type behaviour struct {
 }
 
 func (b *behaviour) shapeName() string {
-	if b.Shape == "resume" {
+	switch b.Shape {
+	case "resume":
 		return "resumed"
+	case "resume1":
+		return "resumed-noreply"
+	case "pre00", "pre10", "pre01", "pre11":
+		return "prekeyed-" + b.Shape[3:]
 	}
 	if len(b.Methods) == 0 {
 		return "noauth"
@@ -132,6 +137,12 @@ func shapeConfig(shape, cenc, senc string) hsreal.Config {
 // execute runs one job on real endpoints. For the resumed shape a full
 // handshake over an untouched link first establishes the session.
 func execute(env *hsreal.Env, j *job, timeout time.Duration) (*hsreal.Result, string) {
+	switch j.Shape {
+	case "resumed-noreply":
+		return hsreal.RunOneWayResume(env, hsreal.Opts{Relay: j.Action, Timeout: timeout}), ""
+	case "prekeyed-00", "prekeyed-10", "prekeyed-01", "prekeyed-11":
+		return hsreal.RunPrekeyed(int(j.Shape[9]-'0'), int(j.Shape[10]-'0'), hsreal.Opts{Relay: j.Action, Timeout: timeout}), ""
+	}
 	cfg := shapeConfig(j.Shape, j.CEnc, j.SEnc)
 	if j.Shape != "resumed" {
 		return hsreal.Run(env, cfg, hsreal.Opts{Relay: j.Action, Timeout: timeout}), ""
@@ -177,7 +188,7 @@ func compareBaseline(j *job, r *hsreal.Result) *diff {
 		// the untouched handshake does end with encryption on - see run)
 		return &diff{"HonestEncryptedTalks", "not-encrypted", fmt.Sprintf("policy %s, IsEncrypted client=%v server=%v, reported %v/%v", j.encPair(), C.StreamEnc, S.StreamEnc, C.Enc, S.Enc)}
 	}
-	if (j.Shape == "resumed") != (C.Resumed && S.Resumed) {
+	if (j.Shape == "resumed" || j.Shape == "resumed-noreply") != (C.Resumed && S.Resumed) {
 		return &diff{"HonestEncryptedTalks", "resumption", fmt.Sprintf("shape %s: SessionResumed client=%v server=%v", j.Shape, C.Resumed, S.Resumed)}
 	}
 	if !(C.AppAccepted && C.AppIntact && S.AppAccepted && S.AppIntact) {
@@ -246,7 +257,7 @@ func compareTampered(j *job, r *hsreal.Result) *diff {
 		return &diff{"TamperedMeansNoAppData", class, fmt.Sprintf("cleartext transcripts differ (c2s same=%v, s2c same=%v) and the %s accepted an application message (client: ok=%v enc=%v accepted=%v; server: ok=%v enc=%v accepted=%v); %s",
 			sameC, sameS, e.who, C.OK, C.StreamEnc, C.AppAccepted, S.OK, S.StreamEnc, S.AppAccepted, shas)}
 	}
-	if j.Shape != "resumed" && C.OK && C.StreamEnc {
+	if (j.Shape == "noauth" || j.Shape == "CLAIMTOBE" || j.Shape == "TOKEN") && C.OK && C.StreamEnc {
 		// the client's handshake ends by accepting the protected post-auth ad
 		return &diff{"EncOnImpliesSameTranscripts", "client-confirmed", fmt.Sprintf("the client's handshake ended with encryption on although the cleartext transcripts differ (c2s same=%v, s2c same=%v); %s", sameC, sameS, shas)}
 	}
@@ -476,6 +487,7 @@ func replayFile(c *core.Ctx, env *hsreal.Env) bool {
 func run(c *core.Ctx) {
 	c.Assume("the property speaks of handshakes that END with encryption on: policies REQUIRED/REQUIRED, and OPTIONAL/OPTIONAL, PREFERRED/OPTIONAL with AES on both ends (cedar keys those too); an end that does not itself require encryption may be talked down to a cleartext session by the relay - that session has no protected frame and is outside the statement")
 	c.Assume("EncOnImpliesSameTranscripts is evaluated for an end once it has accepted a protected frame (client: the post-auth ad; resumed sessions: the first application message); the server's handshake call returns before it has received any protected frame")
+	c.Assume("resumption without a reply (ResumeResponse=false) is a legitimate peer behaviour that cedar's own client never shows: its client side is scripted on cedar's public stream / message API (real stream code on both ends), the server is the real ServerHandshake")
 	c.Assume("SHA-256 / AES-GCM of the Go standard library are correct; the relay's transcripts and the reference opener (internal/refcodec) are independent of cedar's stream code")
 	env, err := hsreal.NewEnv(c.Tmp)
 	if err != nil {
@@ -525,8 +537,8 @@ func run(c *core.Ctx) {
 		}
 		b := w.Scn
 		pair := b.CEnc + "/" + b.SEnc
-		if b.Shape == "resume" {
-			pair = "REQUIRED/REQUIRED" // the resumed shape does not read the policy
+		if b.Shape != "full" {
+			pair = "REQUIRED/REQUIRED" // only the negotiating shape reads the policy
 			b.CEnc, b.SEnc = "REQUIRED", "REQUIRED"
 		}
 		if !wanted(b.shapeName(), pair) {
@@ -562,8 +574,8 @@ func run(c *core.Ctx) {
 			ClearC2S: b.Clear.C2S, ClearS2C: b.Clear.S2C, NC2S: b.Nsent.C2S, NS2C: b.Nsent.S2C}
 		variants = append(variants, vkey(b))
 	}
-	if len(bases) < 8 {
-		c.Broken("expected at least 8 handshake variants (4 shapes + 2 policies x 2 authenticating shapes) from the model, got %d", len(bases))
+	if len(bases) < 13 {
+		c.Broken("expected at least 13 handshake variants (4 handshake shapes, 2 policies x 2 authenticating shapes, resumption without reply, 4 pre-keyed prefix shapes) from the model, got %d", len(bases))
 		return
 	}
 	st := &stats{bySig: map[string]int{}}
@@ -641,5 +653,5 @@ func run(c *core.Ctx) {
 	if c.Thorough() {
 		c.Set("exhaustive", true)
 	}
-	c.Set("rule", "a case is one real handshake of one shape (no authentication, CLAIMTOBE, TOKEN, resumed) through the frame-aware relay with one concrete relay action (byte offset x substitute, inserted frame variant, removed frame, split point, merge), followed by one application message each way; abstract behaviours (shape x cleartext frame x action) are enumerated by TLC from Gen_Handshake mode c04; thorough = every payload byte offset of every cleartext frame x 3 substitutes, quick = end flag byte set to each of 0..11 and 255, each length byte x 3 substitutes, 24 seeded payload offsets per frame; policy variants: encryption REQUIRED/REQUIRED for all shapes, OPTIONAL/OPTIONAL and PREFERRED/OPTIONAL for the authenticating shapes (and no-authentication in thorough); every case is non-trivial")
+	c.Set("rule", "a case is one real handshake of one shape (no authentication, CLAIMTOBE, TOKEN, resumed with reply, resumed without reply = scripted client on cedar streams against the real server, pre-keyed real streams with 0|1 cleartext messages each way) through the frame-aware relay with one concrete relay action (byte offset x substitute, inserted frame variant, removed frame, split point, merge), followed by one application message each way; abstract behaviours (shape x cleartext frame x action) are enumerated by TLC from Gen_Handshake mode c04; thorough = every payload byte offset of every cleartext frame x 3 substitutes, quick = end flag byte set to each of 0..11 and 255, each length byte x 3 substitutes, 24 seeded payload offsets per frame; policy variants: encryption REQUIRED/REQUIRED for all shapes, OPTIONAL/OPTIONAL and PREFERRED/OPTIONAL for the authenticating shapes (and no-authentication in thorough); every case is non-trivial")
 }
